@@ -56,7 +56,8 @@ def gen_geom(r, collide=(0, 0), small=True):
 def gen_model(r, *, roots='free', n_links=None, max_links=6, collide=(0, 0),
               plane=False, plane_ct=(0, 0), limits=True, actuators=True,
               gravity=None, springs=True, damping=True, pos_act=True,
-              height=1.5, dts=(0.0005, 0.001, 0.002, 0.004)):
+              height=1.5, dts=(0.0005, 0.001, 0.002, 0.004), limit_p=0.5,
+              shift_p=0.3):
   """roots: 'free' | 'world' | 'mixed'."""
   n_links = n_links or r.randint(1, max_links)
   links = []
@@ -89,8 +90,13 @@ def gen_model(r, *, roots='free', n_links=None, max_links=6, collide=(0, 0),
         else:
           t = 'hinge' if (k == n - 1 and n > 1) else 'slide'
         j = {'type': t, 'axis': [R[0][perm[k]], R[1][perm[k]], R[2][perm[k]]]}
-        if limits and r.random() < 0.5:
+        if limits and r.random() < limit_p:
           j['range'] = [-r.uniform(0.3, 1.2), r.uniform(0.3, 1.2)]
+          if r.random() < shift_p:
+            # a range that need not contain 0 (legal MJCF; qpos0 outside it)
+            c = r.choice([-1, 1]) * r.uniform(0.2, 0.8)
+            w = r.uniform(0.2, 0.8)
+            j['range'] = [c - 0.5 * w, c + 0.5 * w]
         if damping and r.random() < 0.4:
           j['damping'] = r.uniform(0.05, 1.0)
         if r.random() < 0.3:
